@@ -9,7 +9,8 @@ TEXT = ('A spatial track without a resolvable listener writes Frame::ZERO for ev
         'bounds; the spatial info is inherited by child tracks and feeds Info::listener_distance. Monotonicity, symmetry and '
         'gain bounds are relations between renderings and are not decided.'
         ' Inside the spatial branch the per-frame listener loop cannot be skipped.'
-        ' With an attenuation function the signal is multiplied by the distance amplitude on every path; it is folded to mono exactly when the strength is non-zero.')
+        ' With an attenuation function the signal is multiplied by the distance amplitude on every path; it is folded to mono exactly when the strength is non-zero.'
+        ' Each channel is scaled by the gain of its own ear.')
 TECHNIQUE = 'MIR path / operand-flow rules'
 
 TRACK = 'track::sub::Track'
@@ -112,6 +113,19 @@ def run(ctx, R, tier):
                     if d.startswith('Add(%s, ' % M):
                         gains.append(d)
         okg = len(gains) == 2 and all(g.startswith('Add(%s, Mul(Sub(1.0, %s), Div(Add(glam::Vec3::dot(' % (M, M)) and g.endswith(', 1.0), 2.0)))') for g in gains)
+        if okg:
+            # ... and each channel gets the gain of its own ear
+            side = {}
+            for bb, si, st in sb.stmts():
+                if st['k'] == 'assign' and st['lhs']['p'] and pretty_place(sb, st['lhs']).endswith(('.left', '.right')) and st['rv']['k'] == 'bin' and st['rv']['op'] == 'Mul':
+                    d = describe(sb, st['rv']['b'], depth=12, at=bb)
+                    if 'glam::Vec3::dot(' in d:
+                        ch = pretty_place(sb, st['lhs']).rsplit('.', 1)[1]
+                        side[ch] = ('listener_ear_directions(listener_orientation).0' in d, 'listener_ear_directions(listener_orientation).1' in d,
+                                    'listener_ear_positions(listener_position, listener_orientation).0' in d, 'listener_ear_positions(listener_position, listener_orientation).1' in d)
+            R.check(side.get('left') == (True, False, True, False) and side.get('right') == (False, True, False, True), 'B.C15.strength', 'ear-side',
+                    'the left channel is not scaled by the left ear\'s gain and the right channel by the right ear\'s (%s): the balance would favour the wrong side' % side,
+                    detail={'left': 'ear .0', 'right': 'ear .1'})
         R.check(okg, 'B.C15.strength', 'ear-gain', 'per-ear factor is not min + (1 - min)·(dot + 1)/2 (%d candidates)' % len(gains),
                 detail={'min_ear_amplitude': M[:120] if M else None})
 
@@ -119,8 +133,9 @@ def run(ctx, R, tier):
     if sb is not None:
         from ..paths import switch_info
         mul = [(x, t) for x, t in sb.calls() if (callee_path(t) or '').endswith('::mul_assign') and 'frame::Frame' in (callee_path(t) or '')]
-        att = [(x, t) for x, t in mul if 'relative_distance(' in describe(sb, t['args'][1], depth=14, at=x)
-               and 'Decibels::as_amplitude(' in describe(sb, t['args'][1], depth=14, at=x)]
+        att = [(x, t) for x, t in mul if 'Sub(1.0, track::sub::spatial_builder::SpatialTrackDistances::relative_distance(' in describe(sb, t['args'][1], depth=14, at=x)
+               and 'Decibels::as_amplitude(' in describe(sb, t['args'][1], depth=14, at=x)
+               and 'interpolate(const decibels::Decibels::SILENCE, const decibels::Decibels::IDENTITY' in describe(sb, t['args'][1], depth=14, at=x)]
         sw = [x for x in range(sb.n) if sb.blocks[x]['term']['k'] == 'switch' and not sb.blocks[x]['cleanup']
               and (switch_info(sb, x)[2] or '').endswith('attenuation_function')]
         ok = len(att) == 1 and len(sw) == 1
